@@ -2,11 +2,12 @@ SPECIFICATION Spec
 CONSTANTS
   Sizes <- MC_ModesSizes
   Lays <- MC_ModesLays
-  Modes = {"r", "rb", "w", "wb", "a", "ab", "r+", "rb+", "w+", "wb+", "a+", "ab+"}
+  Modes = {"r", "rb", "w", "wb", "a", "ab", "r+", "rb+", "w+", "wb+", "a+", "ab+", "tmp"}
   RCounts = {2}
   WCounts = {2}
   SOffs = {0}
   VBufs <- MC_None
+  VSizes = {0}
   Extra <- MC_AllExtra
   Naive = FALSE
   Gen = TRUE
